@@ -30,6 +30,7 @@ from .types import (
     NamedType,
     NonNullType,
     ObjectType,
+    ScalarType,
     UnionType,
     unwrap_type,
 )
@@ -189,7 +190,7 @@ class Schema(ResolverMap):
                 if new_type is None:
                     del self.types[type_name]
                 else:
-                    if type(original_type) != type(new_type):
+                    if _kind_of(original_type) is not _kind_of(new_type):
                         raise SchemaError(
                             "Cannot replace type %r with a different kind of type %r."
                             % (original_type, new_type)
@@ -619,6 +620,24 @@ class Schema(ResolverMap):
                 cloned.default_resolvers[typename] = resolver
 
         return cloned
+
+
+_KINDS = (
+    ScalarType,
+    ObjectType,
+    InterfaceType,
+    UnionType,
+    EnumType,
+    InputObjectType,
+)
+
+
+def _kind_of(type_: NamedType) -> type:
+    # Subclasses (custom scalar classes, ...) are of the kind of their base.
+    for kind in _KINDS:
+        if isinstance(type_, kind):
+            return kind
+    return type(type_)
 
 
 def _clone_type(type_: NamedType) -> NamedType:
